@@ -1290,6 +1290,35 @@ def sc_c11(env, t, v, cfg):
                 break
             if n >= cfg.get("max_cases", 2):
                 break
+    elif misuse == "struct_instance_size":
+        # another xobject of the SAME struct class whose LAST dynamic field is longer than the target's (every earlier
+        # dynamic field takes the same room, so that all field offsets agree) does not fit the space fixed at creation:
+        # refused, also when it is an instance and not a dict (M11-C03)
+        for path, ct, cv in V.compounds(t, v):
+            if ct[0] != "struct" or tg.has_ref(ct) or static_size(ct) is not None or cv is None:
+                continue
+            if path and (V.type_at(t, v, path)[0][0] in ("ref", "uref") or behind_ref(t, v, path)):
+                continue
+            dyn = [(fn, ft) for fn, ft in ct[2] if static_size(ft) is None]
+            if not dyn:
+                continue
+            fn, ft = dyn[-1]
+            if ft[0] == "string":
+                longer = str(cv[fn]) + "a longer text that takes several more slots than the original one"
+            elif ft[0] == "array" and len(ft[2]) == 1 and ft[2][0] is None and static_size(ft[1]) is not None and len(cv[fn]) > 0:
+                longer = list(cv[fn]) + [cv[fn][0]] * 9
+            else:
+                continue
+            ov = dict(cv, **{fn: longer})
+            other = V.make(ct, ov, _buffer=B.buf)
+            if path:
+                expect_error(env, B, lambda: V.set_at(t, obj, path, other), f"assigning an instance of the same struct class whose last dynamic field {fn} is longer to the struct at {path}", may_allocate=True)
+            else:
+                expect_error(env, B, lambda: obj._update(other), f"updating the struct with an instance of its class whose last dynamic field {fn} is longer", may_allocate=True)
+            read_ok(env, ct, other, V.expected(ct, ov), "C11 the refused value itself is unchanged")
+            n += 1
+            if n >= cfg.get("max_cases", 2):
+                break
     elif misuse == "array_shape_instance":
         # another xobject of the SAME array class that takes the same number of bytes but has another shape
         # or length (2x3 for 3x2; Int8[:] of 3 for 8 items: both fill the same slots) is not a fitting value
@@ -1664,6 +1693,9 @@ def sc_c20(env, t, v, cfg):
     o2 = V.make(t, v2, _buffer=buf)
     exp2 = V.expected(t, v2)
     group = [obj, o2, B.nbL]
+    # the object was in ordinary use before it is pickled: its typed array view was taken (M11-C20: whatever a handle
+    # keeps from earlier calls travels in its instance dictionary)
+    nplike_ok(env, t, obj, B.exp, "C20 before pickling:")
     m0 = env.mark()
     try:
         c1, c2, cn = env.pickle_roundtrip(group)
@@ -1713,6 +1745,7 @@ def sc_c20(env, t, v, cfg):
             env.frame(m, [(nb, c1._offset, own_size(t, c1))], f"C20 a write through the unpickled object touches only that object (leaf {path})")
         exp1 = V.replace_at(t, exp1, path, V.expected(lt, nv))
     read_ok(env, t, c1, exp1, "C20 the unpickled object reads back what was written through it")
+    nplike_ok(env, t, c1, exp1, "C20 the unpickled array, after writes through its items:")
     read_ok(env, t, obj, B.exp, "C20 the original is unaffected by writes through the unpickled object")
     read_ok(env, t, c2, exp2, "C20 the second unpickled object is unaffected by writes through the first")
     # the restored buffer is a working allocator: valid free list, and a new object does not land on the restored ones
